@@ -6,6 +6,7 @@
     body_dquote_p s flag     -> str   `dquote` with the constant predicate `flag` (the harness passes what
                                        the real `QUOTABLE.search` answered on the text `dquote` asks about)
     body_q_join list sep     -> str
+    body_q_split st sep maxsplit -> str list
 -/
 import ICal.Driver.Proto
 import ICal.Gen.BodiesParser
@@ -21,6 +22,8 @@ def handleBodiesParser (op : String) (args : List String) : Option String :=
   | "body_dquote", [a] => some (encStr (Gen.BodiesParser.dquote (decStr a) quotableSearch))
   | "body_dquote_p", [a, f] => some (encStr (Gen.BodiesParser.dquote (decStr a) (fun _ => f == "1")))
   | "body_q_join", [l, sep] => some (encStr (Gen.BodiesParser.q_join (decStrList l) (decStr sep) quotableSearch))
+  | "body_q_split", [a, sep, m] =>
+    (decInt m).map fun n => encStrList (Gen.BodiesParser.q_split (decStr a) (decStr sep) n)
   | _, _ => none
 
 end ICal.Driver
